@@ -187,3 +187,14 @@ claim('C01',
       'appear only as concrete values). re -> pathsym.symre; record arrays / Table -> record stand-in with a real numpy dtype; the decimal '
       'rendering and parsing of integers is the engine\'s (digits symbolic), the tokeniser in between is pydl\'s; in-memory file system.',
       'DESIGN.md 4/C01')
+claim('C03',
+      'The yanny object methods (__init__, write, append, _parse, protect and the accessors) are executed over an in-memory file system for '
+      'EVERY history of 1-2 operations (3 in the thorough tier) drawn by a symbolic selector from {write-new, append rows as lists under the '
+      'upper-case name, append a record array under the lower-case name, append rows of the second table, append pairs, append nothing, write '
+      'over an existing file, append to a missing file, re-read}, with symbolic characters in the appended strings and pair values, in raw and '
+      'record-array mode. After every step the object, a fresh read of its file and the model (original content followed by all appended rows '
+      'and pairs in order) agree cell by cell, earlier file content is a byte-for-byte prefix of the new one, refused operations raise the '
+      'documented exception and leave files and object unchanged, and an empty append only warns.',
+      'The file system is a stub with create / append / exists semantics (real OS permissions and concurrent writers are outside); re -> '
+      'pathsym.symre; record arrays -> stand-in; the solver enumerates operation selectors (path feasibility) and decides the cell '
+      'equalities over the symbolic characters. Histories longer than 3 steps are outside the bound.', 'DESIGN.md 4/C03')
